@@ -73,17 +73,21 @@ class _InMemoryConsumer(ConsumerT):
         [self._queue.delayed.pop(i) for i in pop_soon]
 
     def __consume_normal(self) -> Message | None:
-        try:
+        # one full turn of the queue: every waiting message is looked at once and the ones
+        # which stay keep their order, so that a message of somebody else's topic at the head
+        # of the queue can't hide the messages behind it
+        found: Message | None = None
+        for _ in range(self._queue.simple.qsize()):
             msg = self._queue.simple.get_nowait()
-        except asyncio.QueueEmpty:
-            return None
-        if msg.parameters.is_overdue:  # ttl expired
-            self._queue.dead.append(msg)
-            return None
-        if self.topics and msg.key.topic not in self.topics:  # topics don't match
-            self._queue.simple.put_nowait(msg)
-            return None
-        return msg
+            if found is not None:
+                self._queue.simple.put_nowait(msg)
+            elif msg.parameters.is_overdue:  # ttl expired
+                self._queue.dead.append(msg)
+            elif self.topics and msg.key.topic not in self.topics:  # topics don't match
+                self._queue.simple.put_nowait(msg)
+            else:
+                found = msg
+        return found
 
     def __consume_delayed(self) -> Message | None:
         if not self._queue.delayed:
